@@ -162,6 +162,62 @@ SEEDS = {
     ],
 }
 
+# ---- class "multi_quoted": a leading SELECT whose literal / quoted identifier / comment holds a ';' (and
+# possibly quotes and a decoy "limit <n>"), then the real separator, then a statement of another class.
+# The decoy matters: when "limit <digit>" occurs anywhere in the text the tool appends no LIMIT clause, so the
+# trailing statement reaches the engine unchanged.
+MQ_LEADS = [
+    ("sq", "SELECT 'a; {D}'"),
+    ("sq_alias", "SELECT 'a;b' AS x{L}"),
+    ("sq_escaped", "SELECT 'it''s; {D}'"),
+    ("sq_two", "SELECT 'a', 'b; {D}'"),
+    ("sq_like", "SELECT count(*) FROM trace WHERE What LIKE '%;%{D}'"),
+    ("dq", 'SELECT "a; {D}"'),
+    ("dq_escaped", 'SELECT "a""; {D}"'),
+    ("backtick", "SELECT `a; {D}`"),
+    ("bracket", "SELECT 1 AS [a; {D}]"),
+    ("line_comment", "SELECT 1 -- '; {D}\n"),
+    ("block_comment", "SELECT 1 /* '; {D} */"),
+    ("block_comment_dq", 'SELECT 1 /* "; {D} */'),
+    ("sq_then_comment", "SELECT ';' /* ' {D} */"),
+    ("blob", "SELECT x'3b', '; {D}'"),
+]
+MQ_TRAILS = [
+    ("attach", "ATTACH DATABASE 'mq_evil.db' AS e"),
+    ("attach_up", "ATTACH DATABASE '../mq_evil2.db' AS e"),
+    ("attach_uri", "ATTACH 'file:mq_evil3.db?mode=rwc' AS e"),
+    ("vacuum_into", "VACUUM INTO 'mq_copy.db'"),
+    ("vacuum", "VACUUM"),
+    ("journal_delete", "PRAGMA journal_mode = DELETE"),
+    ("journal_truncate", "PRAGMA main.journal_mode = TRUNCATE"),
+    ("journal_off", "PRAGMA journal_mode = OFF"),
+    ("writable_schema", "PRAGMA writable_schema = ON"),
+    ("query_only_off", "PRAGMA query_only = OFF"),
+    ("user_version", "PRAGMA user_version = 7"),
+    ("checkpoint", "PRAGMA wal_checkpoint(TRUNCATE)"),
+    ("drop", "DROP TABLE trace"),
+    ("create", "CREATE TABLE mq_evil (x)"),
+    ("delete", "DELETE FROM trace"),
+    ("insert", "INSERT INTO location VALUES (99, 'evil')"),
+    ("update", "UPDATE trace SET Kind = 'x'"),
+    ("two_more", "PRAGMA query_only = OFF; DELETE FROM trace"),
+]
+
+
+def multi_quoted_texts():
+    """The full product lead x trailing statement x decoy, as (text, tag) pairs."""
+    out = []
+    for ln, lead in MQ_LEADS:
+        for tn, trail in MQ_TRAILS:
+            for decoy in (True, False):
+                l = lead.replace("{D}", "limit 5" if decoy else "x").replace("{L}", " LIMIT 1" if decoy else "")
+                for sep in (" ; ", ";"):
+                    out.append((l + sep + trail, "%s/%s/%s" % (ln, tn, "decoy" if decoy else "plain")))
+    return out
+
+
+SEEDS["multi_quoted"] = [t for t, _ in multi_quoted_texts() if " ; " in t]
+
 # malformed tool arguments (class "malformed"): (args, note)
 MALFORMED_ARGS = [
     ({}, "no sql"),
